@@ -4,10 +4,13 @@ CONSTANTS
   SlowDelay = 80
   HangDelay = 700
   TimeoutRecoverable = FALSE
+  BackoffGrows = TRUE
   MaxLenWebhook = 2
   MaxLenPagerduty = 1
   Deadlines = {450, 1600, 2900}
   CancelDeadline = 2900
   Cancels = {130, 950}
+  LongDeadlines = {7000}
+  LongLen = 1
 INVARIANTS InvClauses
 CHECK_DEADLOCK FALSE
